@@ -175,25 +175,41 @@ impl Triple {
 }
 
 fn value_case(a: &Args, l: u32, ctx: &mut Ctx) -> Result<(), String> {
-    let mut t = Triple::new(a.scratch.join("c09v"));
     let (ka, kx, kb) = (b"sentinelA".to_vec(), b"X".to_vec(), b"sentinelB".to_vec());
     let sa = crate::util::gen_bytes(29, 1, 0);
     let sb = crate::util::gen_bytes(45, 2, 0);
-    t.put(&ka, &sa)?;
-    t.put(&kx, &crate::util::gen_bytes(l as usize, l, 0))?;
-    t.put(&kb, &sb)?;
-    let r0 = t.check(&[&ka, &kb], ctx)?;
-    // one byte shorter / longer, and a class-crossing length
-    let cross = crate::ops::value_slot(l as u64) as u32 + 1;
-    for nl in [l.saturating_sub(1), l + 1, cross, l / 2, l] {
+    // lengths to overwrite X(l) with: one byte shorter / longer, filling its slot to the brim and just beyond
+    // (the brim depends on the slot X already has, not on l), a class-crossing one, a much shorter one
+    let slot = crate::ops::value_slot(l as u64);
+    let mut brim = l as u64;
+    while crate::ops::value_slot(brim + 1) == slot {
+        brim += 1;
+    }
+    let mut news: Vec<u32> = vec![l.saturating_sub(1), l + 1, brim as u32, brim as u32 + 1, brim as u32 + 2, brim as u32 + 3, slot as u32, slot as u32 + 1, l / 2];
+    news.retain(|&x| x != l);
+    news.sort_unstable();
+    news.dedup();
+    for nl in news {
+        // a fresh triple per overwrite: A, X, B sit in adjacent slots, so a spill out of X lands in B
+        let mut t = Triple::new(a.scratch.join("c09v"));
+        t.put(&ka, &sa)?;
+        t.put(&kx, &crate::util::gen_bytes(l as usize, l, 0))?;
+        t.put(&kb, &sb)?;
+        let r0 = t.check(&[&ka, &kb], ctx)?;
         t.put(&kx, &crate::util::gen_bytes(nl as usize, nl ^ 0x55, 0))?;
-        let r = t.check(&[&ka, &kb], ctx)?;
+        let r = t.check(&[&ka, &kb], ctx).map_err(|e| format!("after overwriting it by a value of length {nl}: {e}"))?;
         if r != r0 {
             return Err(format!("overwriting the value of length {l} by one of length {nl} changed the raw slot bytes of a neighbouring entry"));
         }
-        ctx.count("overwrites_checked", 1);
+        // and back to the original length
+        t.put(&kx, &crate::util::gen_bytes(l as usize, l, 0))?;
+        let r = t.check(&[&ka, &kb], ctx).map_err(|e| format!("after overwriting it by length {nl} and again by length {l}: {e}"))?;
+        if r != r0 {
+            return Err(format!("overwriting the value of length {l} by {nl} and back changed the raw slot bytes of a neighbouring entry"));
+        }
+        ctx.count("overwrites_checked", 2);
+        t.close();
     }
-    t.close();
     Ok(())
 }
 
